@@ -210,7 +210,7 @@ def int_to_chr(i):
     n = i.pop()
     try:
         char = chr(n)
-    except ValueError:
+    except (ValueError, OverflowError):
         raise BibTeXError('%i passed to int.to.chr$' % n)
     i.push(char)
 
